@@ -1,6 +1,6 @@
 (* Assembly of the C04 obligations into the statement of props/C04.v. *)
 From Coq Require Import Reals List Arith Bool.
-From GS Require Import ExprR LinAlg GraphModel GNSpec LinearSpec C01_Rn C04_affine C04_linear C07_ext C07_whole C07_wholeRn C05_grad C04_whole.
+From GS Require Import ExprR LinAlg GraphModel GNSpec LinearSpec C01_Rn C04_affine C04_linear C07_ext C07_whole C07_wholeRn C05_grad C04_whole Assembled.
 Import ListNotations.
 Open Scope R_scope.
 
@@ -38,9 +38,15 @@ Lemma C04_all :
      solves (glen vs) (spec_H vs (recsR poses gs)) (spec_b vs (recsR poses gs)) dx ->
      (forall r, (r < glen vs)%nat -> spec_b vs (recsR (move_poses vs poses dx) gs) r = 0) /\
      (forall r c, spec_H vs (recsR (move_poses vs poses dx) gs) r c = spec_H vs (recsR poses gs) r c)) /\
+  (* ... and for the system produced by the ASSEMBLY ALGORITHM of lib/GraphModel.v (through assembly_correct of C03) *)
+  (forall vs poses gs dx,
+     length poses = length vs -> List.Forall (fun v => (0 < v_dim v)%nat) vs -> List.Forall (okgR vs poses) gs ->
+     List.Forall (okgR vs (move_poses vs poses dx)) gs ->
+     solves (glen vs) (assemble_hessian R 0 1 Rplus Rmult vs (recsR poses gs)) (assemble_gradient R 0 Rplus Rmult vs (recsR poses gs)) dx ->
+     forall r, (r < glen vs)%nat -> assemble_gradient R 0 Rplus Rmult vs (recsR (move_poses vs poses dx) gs) r = 0) /\
   (length exR_poses = length exR_vs /\ List.Forall (fun v => (0 < v_dim v)%nat) exR_vs /\ List.Forall (okgR exR_vs exR_poses) exR_gs).
 Proof.
-  split; [|split; [exact C04_one_step_Rn | exact C04_one_step_Rn_premises]].
+  split; [|split; [exact C04_one_step_Rn | split; [exact C04_one_step_Rn_assembled | exact C04_one_step_Rn_premises]]].
   destruct C04_affine_edges as (A1 & A2 & A3 & A4). destruct linear_all as (L1 & L2 & L3 & L4 & L5 & L6).
   repeat match goal with |- _ /\ _ => split end; auto using lin_wf, lin_solves.
 Qed.
